@@ -51,6 +51,11 @@ def sc_machine(B, C, D, kind, floor, how, trips):
             cur.save(path)
             # an existing object: another shape for ML; for MAP an adapted machine of the same prior
             new = gmm.GMMMachine(C + 1) if kind == "ml" else gmm.GMMMachine(C, trainer="map", ubm=ubm)
+            # it has parameters and floors of its own (possibly above the file's variances)
+            nC = C + 1 if kind == "ml" else C
+            new.means = B.arr("om%d" % k, (nC, D))
+            new.variance_thresholds = B.real("ot%d" % k, pos=True)
+            new.variances = B.arr("ov%d" % k, (nC, D), pos=True)
             new.load(B.h5file(path, "r"))
         cur = new
     o = Outcome()
@@ -177,7 +182,32 @@ def job_machine(P, C, D, kind, floor):
         P.run("%s-%d" % (how, trips), sc_machine, dict(C=C, D=D, kind=kind, floor=floor, how=how, trips=trips), validate=1)
 
 
+def sc_legacy_many(B, C):
+    """real code only: a legacy-layout file with more than ten gaussians"""
+    import numpy as np
+
+    gmm = B.mod("gmm")
+    rs = np.random.RandomState(C)
+    w = rs.uniform(0.1, 1, C)
+    mu, v, thr = rs.normal(size=(C, 2)), rs.uniform(0.5, 2, (C, 2)), np.full((C, 2), 1e-3)
+    path = B.h5path("legacy%d.h5" % C)
+    f = B.h5file(path, "w")
+    f["m_n_gaussians"] = np.array([C])
+    f["m_weights"] = w.reshape(1, C)
+    for i in range(C):
+        g = f.create_group("m_gaussians%d" % i)
+        g["m_mean"], g["m_variance"], g["m_variance_thresholds"] = mu[i], v[i], thr[i]
+    f.close()
+    leg = gmm.GMMMachine.from_hdf5(B.h5file(path, "r"))
+    o = Outcome()
+    o.equal("legacy-many/means", leg.means, mu)
+    o.equal("legacy-many/variances", leg.variances, v)
+    o.equal("legacy-many/weights", leg.weights, w)
+    return o
+
+
 def job_misc(P, C, D):
+    P.probe_real("legacy-many-gaussians", sc_legacy_many, [dict(C=c) for c in (11, 12, 23)], tries=1)
     for fl in ("scalar", "vector", "matrix"):
         P.run("resave-" + fl, sc_resave, dict(C=C, D=D, floor=fl), validate=1)
     P.run("legacy", sc_legacy, dict(C=C, D=D), validate=1)
